@@ -124,8 +124,13 @@ func baseConf() config.Root {
 	other := config.Integration{Name: "other", Enabled: true, Sources: []config.Source{{Name: "src"}},
 		Table: wpg.Table{Name: "other_t", Columns: []wpg.Column{{Name: "addr", Type: "bytea"}}},
 		Block: []dig.BlockData{{Name: "tx_signer", Column: "addr"}}}
+	// chain text (an ABI string) among the notification columns
+	notes := config.Integration{Name: "notes", Enabled: true, Sources: []config.Source{{Name: "src"}},
+		Table:        wpg.Table{Name: "notes_t", Columns: []wpg.Column{{Name: "txt", Type: "text"}}},
+		Notification: dig.Notification{Columns: []string{"txt"}},
+		Event: dig.Event{Name: "Note", Type: "event", Inputs: []dig.Input{{Name: "text", Type: "string", Column: "txt"}}}}
 	return config.Root{PGURL: "postgres:///x", Sources: []config.Source{{Name: "src", ChainID: 1, URLs: []string{"http://x"}}},
-		Integrations: []config.Integration{other, main}}
+		Integrations: []config.Integration{other, main, notes}}
 }
 
 func clone(c config.Root) config.Root {
@@ -176,6 +181,17 @@ func walk(v reflect.Value, path string, get func(root reflect.Value) reflect.Val
 }
 
 func blocksFor(ev dig.Event) []eth.Block {
+	if ev.Name == "Note" {
+		// abi.encode(string): offset, length, padded bytes - the text carries the marker and quote characters
+		txt := []byte(marker + "'), ('x'); drop table y; --")
+		padded := append(append([]byte{}, txt...), make([]byte, (32-len(txt)%32)%32)...)
+		data := append(append(sw32(32), sw32(byte(len(txt)))...), padded...)
+		b := eth.Block{Header: eth.Header{Number: 10, Hash: sw32(1)}}
+		tx := eth.Tx{Idx: 0, PrecompHash: sw32(2), To: make([]byte, 20), From: make([]byte, 20)}
+		tx.Logs = []eth.Log{{Idx: 0, Address: make([]byte, 20), Data: data, Topics: []eth.Bytes{ev.SignatureHash()}}}
+		b.Txs = []eth.Tx{tx}
+		return []eth.Block{b}
+	}
 	addrw := append(make([]byte, 12), []byte(marker + "zzzzzzzzzzzz")[:20]...)
 	data := append(append(append(sw32(32), sw32(1)...), sw32(5)...), addrw...)
 	b := eth.Block{Header: eth.Header{Number: 10, Hash: sw32(1)}}
@@ -218,6 +234,9 @@ func exercise(conf config.Root) (sql []string, notes []string) {
 	return pg.sql, notes
 }
 
+// the marker counts in any letter case (a spliced value may have been folded)
+func hasMarker(q string) bool { return strings.Contains(strings.ToLower(q), strings.ToLower(marker)) }
+
 func TestVerifSQLSafeBounded(t *testing.T) {
 	base := baseConf()
 	// the base configuration must be acceptable and must exercise the sinks
@@ -243,7 +262,7 @@ func TestVerifSQLSafeBounded(t *testing.T) {
 			t.FailNow()
 		}
 		for _, q := range sql {
-			if strings.Contains(q, marker) {
+			if hasMarker(q) {
 				fmt.Printf("BOUNDED-FAIL chain data reached SQL text: %s\n", q)
 				fmt.Printf("BOUNDED cases=1 failures=1 exhaustive=true\n")
 				t.FailNow()
@@ -284,7 +303,7 @@ func TestVerifSQLSafeBounded(t *testing.T) {
 				}
 				sql, _ := exercise(c)
 				for _, q := range sql {
-					if strings.Contains(q, marker) {
+					if hasMarker(q) {
 						fails++
 						if fails <= 12 {
 							fmt.Printf("BOUNDED-FAIL %s = %q accepted by the %s path and reached SQL text: %s\n", p.path, h, path, q)
